@@ -29,6 +29,7 @@ type pRun struct {
 	exits      int
 	fcancels   int
 	brDeadline int
+	lateTake   bool
 	fcancelled bool // flush.cancel seen inside the case log
 	started    bool
 	ops        map[int]*pOpInfo
@@ -124,6 +125,17 @@ func (r *pRun) sink(e bs.VerifEvent) {
 	if e.Kind == "stop.ret.deadline" {
 		r.brDeadline++
 	}
+	if !r.closed && r.stopRes != nil && !*r.stopRes {
+		// after Stop returned its deadline error: a flush request taken from now on must be abandoned
+		switch e.Kind {
+		case "worker.take":
+			r.lateTake = true
+		case "fl.begin":
+			if r.lateTake {
+				r.lateStore = append(r.lateStore, "a flush taken after the return (fl.begin)")
+			}
+		}
+	}
 	if r.closed {
 		return
 	}
@@ -149,7 +161,7 @@ func (r *pRun) logEv(kind, s string, a, b int64) {
 	if !r.closed {
 		r.evs = append(r.evs, pEvent{Kind: kind, S: s, A: a, B: b, Gid: gid, T: time.Since(r.t0)})
 		if kind == "h.sbegin" && a == 1 && r.stopRes != nil && !*r.stopRes && (s == "CreateFile" || s == "Update") {
-			r.lateStore = append(r.lateStore, s)
+			r.lateStore = append(r.lateStore, s+" started under a live context")
 		}
 	}
 	r.mu.Unlock()
